@@ -136,6 +136,31 @@ pub fn cases(rng: &mut Rng, count: usize, _tier: &str) -> Vec<Case> {
             }
             w => w,
         };
+        // a disease name with a self-overlapping pattern, and the query that occurs only inside a failed
+        // partial match of itself ("abac" in "ababac", "aab" in "aaab"): a substring search has to backtrack
+        let mut overlap_queries: Vec<String> = vec![];
+        let w = match w {
+            world::World::Builder(mut s) if rng.chance(1, 3) => {
+                let omim_ids: Vec<u32> = s.annots.iter().filter(|a| a.0 == 1 || a.0 == 4).map(|a| a.1).collect();
+                if !omim_ids.is_empty() {
+                    let id = *rng.pick(&omim_ids);
+                    let (name, q) = match rng.below(3) {
+                        0 => (format!("Ataxia {}c type", "ab".repeat(rng.range(2, 4) as usize) + "a"), "abac".to_string()),
+                        1 => (format!("{}b syndrome", "a".repeat(rng.range(3, 5) as usize)), "aab".to_string()),
+                        _ => ("Spinocerebellar ataxia 1112".to_string(), "112".to_string()),
+                    };
+                    for a in s.annots.iter_mut() {
+                        if (a.0 == 1 || a.0 == 4) && a.1 == id {
+                            a.3 = name.clone();
+                        }
+                    }
+                    overlap_queries.push(q);
+                    tags.push("overlapping_query");
+                }
+                world::World::Builder(s)
+            }
+            w => w,
+        };
         let mut probes: Vec<u32> = vec![10_000_002, 10_000_003, 1 << 24, 1 << 31, u32::MAX - 1, u32::MAX];
         for _ in 0..4 {
             probes.push(rng.range(10_000_002, u64::from(u32::MAX)) as u32);
@@ -146,6 +171,7 @@ pub fn cases(rng: &mut Rng, count: usize, _tier: &str) -> Vec<Case> {
             probes.push(t.id | (1 << 31));
         }
         let mut queries: Vec<String> = vec![String::new()];
+        queries.extend(overlap_queries.iter().cloned());
         for recs in [&f.genes, &f.omim] {
             for r in recs.iter() {
                 match rng.below(4) {
